@@ -355,7 +355,7 @@ pub fn cmd_sink(r: &mut Runner, t: &[&str]) -> String {
         if let Some(want) = vec_build(ref_ty, &ref_calls) {
             let held = &h.held[prefill.len()..];
             r.check(held == &want[..], || {
-                format!("C07 C09 C15 C01 sink holds {} want {} : {}", show_bytes(held), show_bytes(&want), line)
+                format!("C07 C09 C15 C01 C11 sink holds {} want {} : {}", show_bytes(held), show_bytes(&want), line)
             });
             let opened = raw::Fst::new(held.to_vec());
             let ok = match &opened {
